@@ -623,6 +623,10 @@ def wrapper_sizes(repo, rep, kernels_lead):
 
 
 def run(repo, rep, tier):
+    rep.rule("R-C03-10", "(shared with C16) the smoothed spectrum handed to the watershed has no NaN rows: smooth_spec fills the window's edge NaN from the input "
+                         "on every path (a NaN bin is owned by no partition: energy is lost)")
+    from .round7 import unconditional_boundary_fill
+    unconditional_boundary_fill(repo, rep, "R-C03-10")
     rep.rule("R-C03-9", "(shared with C01) the wind-sea classification of PTM1 / PTM2 compares the wind with the celerity AT THE GIVEN DEPTH: the wavenumber polynomial behind it sums every coefficient with its own power")
     from .shared import wavenumber_polynomial
     wavenumber_polynomial(repo, rep, "R-C03-9")
